@@ -1,6 +1,6 @@
 """C07 Constraint errors form a derivative hierarchy with adjoint forces (DESIGN 5 C07).
 
-Model: coq/C07/C07_Model.v -- the constraint-equation kernels of Rod, Ball, Weld, PointInPlane, PointOnLine, ConstantAngle,
+Model: coq/C07/C07_Model.v + C07_Contact.v (second wave: SphereOnPlaneContact, SphereOnSphereContact, PointOnPlaneContact) -- the constraint-equation kernels of Rod, Ball, Weld, PointInPlane, PointOnLine, ConstantAngle,
 ConstantOrientation, NoSlip1D, ConstantCoordinate/Speed/Acceleration, linear Coordinate/SpeedCoupler and the Ancestor-frame
 conversion, hand-written from ConstraintImpl.h / Constraint_RodImpl.h / Constraint_Rod.cpp / Constraint.cpp, generic in NumOps.
 Theorems: coq/Props/Properties_C07.v (per type: verr is the jet of perr, aerr the jet of verr, forces are the exact transpose
@@ -9,18 +9,23 @@ and NoSlip1D; system level: G^T is the exact adjoint of G for every tree).
 Tie: correspondence -- harness/C07_con.cpp builds random constrained systems and prints parameters, kinematics and what the
 implementation reports; the extracted model (OCaml, float NumOps) recomputes perr/verr/aerr, constraint forces from multipliers,
 every column of G, G*u and G^T*lambda from the same inputs.  Failing-input search: harness/C07_search.cpp (finite differences
-and adjoint residuals on the implementation alone)."""
+and adjoint residuals on the implementation alone, over ALL constructible built-in constraint types incl. the unmodelled LineOnLineContact
+and PrescribedMotion, both bodies moving and rotating)."""
 import os, sys, math, collections
 from vlib import *
 
-PROPS = ['Props/Properties_C07.v']
+PROPS = ['Props/Properties_C07.v', 'Props/Properties_C07b.v']
+def is_body(k): return k <= 7 or 13 <= k <= 17
 EXTRACT = '''From Coq Require Import Extraction ExtrOcamlBasic.
-Require Import Num Vec C07_Model.
+Require Import Num Vec C07_Model C07_Contact.
 Extraction "c07model.ml" ev_perr ev_verr ev_aerr ev_force ev_forceG svdots cc_perr cs_verr cacc_aerr
-  ccpl_perr ccpl_verr ccpl_aerr ccpl_force scpl_verr scpl_aerr scpl_force mkBk.
+  ccpl_perr ccpl_verr ccpl_aerr ccpl_force scpl_verr scpl_aerr scpl_force mkBk ev2_perr ev2_verr ev2_aerr ev2_force ev2_forceG.
 '''
 KNAMES = ['Rod', 'Ball', 'Weld', 'PointInPlane', 'PointOnLine', 'ConstantAngle', 'ConstantOrientation', 'NoSlip1D',
-          'ConstantCoordinate', 'ConstantSpeed', 'ConstantAcceleration', 'CoordinateCoupler', 'SpeedCoupler']
+          'ConstantCoordinate', 'ConstantSpeed', 'ConstantAcceleration', 'CoordinateCoupler', 'SpeedCoupler',
+          'SphereOnPlaneContact', 'SphereOnPlaneContact+rolling', 'SphereOnSphereContact', 'SphereOnSphereContact+rolling', 'PointOnPlaneContact',
+          'LineOnLineContact', 'LineOnLineContact+rolling', 'PrescribedMotion']
+NALL = len(KNAMES)      # kinds the finite-difference search iterates over (harness/C07_sys.h K_NALL)
 PAIRS = ['branches(2,3)', 'anc/desc(1,4)', 'ground(0,4)', 'ground-rev(4,0)', 'desc/anc(4,1)', 'branches(3,2)', 'branches(3,4)', 'ground(0,3)']
 RTOL, ATOL = 1e-9, 1e-10
 KEY_BIAS = 'bias-operator-holonomic-q-constraints-ignores-NDot-u'
@@ -77,14 +82,15 @@ def mquery(c, fn, a, b=(), cc=()):
 def queries(c):
     """-> list of (label, query, expected implementation vector or None)"""
     k = c['kind']; nu = c['nu']; mp, mv, ma = c['m']; o = c['out']; q = []
-    if k <= 7:
-        if mp: q.append(('PERR', bquery(c, 'PERR'), o['PERR']))
-        q.append(('VERR', bquery(c, 'VERR'), o['VERR']))
-        q.append(('AERR', bquery(c, 'AERR'), o['AERR']))
-        q.append(('FORCE', bquery(c, 'FORCE', lam=c['lam']), None))
-        q.append(('FORCEG', bquery(c, 'FORCEG', lam=c['lam']), None))
-        for j in range(nu): q.append(('GCOL%d' % j, bquery(c, 'VERR', vels=c['jcol'][j]), c['gcol'][j]))
-        q.append(('GU', bquery(c, 'VERR', vels=c['juu']), o['GU']))
+    if is_body(k):
+        x = '2' if k >= 13 else ''
+        if mp: q.append(('PERR', bquery(c, 'PERR' + x), o['PERR']))
+        q.append(('VERR', bquery(c, 'VERR' + x), o['VERR']))
+        q.append(('AERR', bquery(c, 'AERR' + x), o['AERR']))
+        q.append(('FORCE', bquery(c, 'FORCE' + x, lam=c['lam']), None))
+        q.append(('FORCEG', bquery(c, 'FORCEG' + x, lam=c['lam']), None))
+        for j in range(nu): q.append(('GCOL%d' % j, bquery(c, 'VERR' + x, vels=c['jcol'][j]), c['gcol'][j]))
+        q.append(('GU', bquery(c, 'VERR' + x, vels=c['juu']), o['GU']))
     else:
         co = c['coords']; par = c['par']; lam = c['lam']
         qs = [x[4] for x in co]; qd = [x[5] for x in co]; qdd = [x[6] for x in co]; us = [x[7] for x in co]; ud = [x[8] for x in co]
@@ -122,7 +128,7 @@ def check_case(c, res):
     bad = []; k = c['kind']; nu = c['nu']; o = c['out']; mp, mv, ma = c['m']
     for lab, (mod, exp) in res.items():
         if exp is not None and not agree(exp, mod): bad.append((lab, exp, mod))
-    if k <= 7:
+    if is_body(k):
         # constraint forces from multipliers, per mobilized body, in the Ancestor frame
         roles = [b[0] for b in c['bodies']]
         mod = collections.defaultdict(lambda: [0.0] * 6); imp = collections.defaultdict(lambda: [0.0] * 6)
@@ -204,7 +210,7 @@ def correspondence(ctx, exes, ncases, seed_offset=0):
         results[ci][lab] = (parse_floats(l), exp)
     hist = collections.Counter(); nontriv = 0; dis = []; incons = []; ncmp = 0; biasbad = []
     for c, res in zip(cases, results):
-        key = KNAMES[c['kind']] + (':' + PAIRS[c['pair']].split('(')[0] if c['kind'] <= 7 else '') + (':onmanifold' if c['onman'] else '') + (':with-second-constraint' if c['extra'] else '')
+        key = KNAMES[c['kind']] + (':' + PAIRS[c['pair']].split('(')[0] if is_body(c['kind']) else '') + (':onmanifold' if c['onman'] else '') + (':with-second-constraint' if c['extra'] else '')
         hist[key] += 1
         ncmp += len(res) + 2
         if any(abs(x) > 1e-6 for x in c['out'].get('VERR', []) + c['out'].get('AERR', [])): nontriv += 1
@@ -243,6 +249,7 @@ def correspondence(ctx, exes, ncases, seed_offset=0):
 
 KEY_BALL = 'Ball-Weld-verr-aerr-use-coincident-material-point'
 KEY_NOSLIP = 'NoSlip1D-aerr-omits-convective-terms'
+KEY_SOS = 'SphereOnSphereContact-rolling-aerr-ignores-contact-frame-spin'
 FD_TOL, EXACT_TOL = 1e-6, 1e-9
 
 def build_search(ctx):
@@ -297,13 +304,18 @@ def search(ctx, exe, n):
                 worst[name] = max(worst[name], v); continue
             if name in ('e_dq', 'e_du', 'e_Pq') and offBW: key = KEY_BALL
             elif name == 'e_du' and k == 7: key = KEY_NOSLIP
-            elif name == 'e_bias' and k in (8, 11): key = KEY_BIAS
+            elif name == 'e_du' and k == 16 and not d['onman']: key = KEY_SOS
+            elif name == 'e_bias' and k in (8, 11, 20): key = KEY_BIAS
             else: key = 'impl:%s:%s' % (name, KNAMES[k])
-            if key in (KEY_BALL, KEY_NOSLIP, KEY_BIAS): known[key] += 1
+            if key in (KEY_BALL, KEY_NOSLIP, KEY_BIAS, KEY_SOS): known[key] += 1
             else: nfail += 1
             if key in reported: continue          # one replay per distinct failure kind (the first failing input)
             reported.add(key)
             ctx.report(key, 'C07 search: %s = %.3g exceeds %.1g on %s' % (name, v, tol, d['line']), {'replay_cmd': '%s search %d %d' % (exe, ctx.seed, n), 'failing_input': d['line']})
+    cover = collections.Counter(KNAMES[d['kind']] + (':both-bodies-moving' if (d['kind'] <= 7 or 13 <= d['kind'] <= 19) and d['pair'] in (0, 5, 6) else '') for d in rows)
+    ctx.extra['search_types_covered'] = dict(cover)
+    missing = [KNAMES[k] for k in range(NALL) if not any(d['kind'] == k for d in rows)]
+    if missing: ctx.broken.append(('search:C07', 'the finite-difference search produced no case for: ' + ', '.join(missing)))
     ctx.extra['search'] = {'systems': len(rows), 'predicate_evaluations': int(done[0].split()[1]) if done else 0, 'unexpected_failures': nfail,
                            'known_finding_hits': dict(known), 'worst_residual_among_passing': dict(worst), 'fd_tol': FD_TOL, 'exact_tol': EXACT_TOL}
     if not rows: ctx.broken.append(('search:C07', 'search produced no rows: ' + (out + err)[-300:]))
@@ -317,8 +329,8 @@ def run(ctx):
     sx = build_search(ctx)
     if sx:
         witnesses(ctx, sx)
-        search(ctx, sx, (2600 if ctx.broken else 260) if ctx.tier == 'quick' else 5200)
-    ctx.cov['rule'] = ('correspondence: random 5-body trees (Ground + 4; 10 mobilizer types; quaternion or Euler), one constraint of each of the 13 first-wave kinds in turn on a random '
+        search(ctx, sx, (4200 if ctx.broken else 420) if ctx.tier == 'quick' else 8400)
+    ctx.cov['rule'] = ('correspondence: random 5-body trees (Ground + 4; 10 mobilizer types; quaternion or Euler), one constraint of each of the 18 modelled kinds in turn (13 first-wave + SphereOnPlaneContact and SphereOnSphereContact with and without rolling, PointOnPlaneContact; the contact kinds preferably with both bodies moving and rotating in the Ancestor) on a random '
                        'body pair (different branches / ancestor-descendant / with Ground, both orders; NoSlip1D with a third case body), every other round a second one-row constraint in the same system so that the rows sit at an offset (row assembly of G), random violated state and every third round projected onto '
                        'the manifold, random udot and multipliers; perr, verr, aerr, forces from multipliers, every column of G, G*u, G^T*lambda compared (rel 1e-9 of the vector scale, abs 1e-10); '
                        'non-trivial = some velocity/acceleration error component above 1e-6; distinct by random draw')
